@@ -112,6 +112,7 @@ def plan(tier, seed, args):
             "vxc_numint": (6, 5, 4, 6),
             "pbc_helpers": (8, 5, 6, 6),
             "atc_misc": (8, 5, 6, 6),
+            "misc_direct": (6, 5, 6, 6),
         }
     else:
         table = {
@@ -125,6 +126,7 @@ def plan(tier, seed, args):
             "vxc_numint": (100, 8, 100, 8),
             "pbc_helpers": (200, 8, 200, 8),
             "atc_misc": (300, 8, 300, 8),
+            "misc_direct": (100, 8, 100, 8),
         }
 
     if args.cases is not None:
